@@ -24,7 +24,7 @@ from extract import ExtractError  # noqa: E402
 import registry  # noqa: E402
 
 REPO = os.environ.get('VERIF_REPO', '/repo')
-BUILD = os.path.join(VERIF, 'build')
+BUILD = os.environ.get('VERIF_BUILD') or os.path.join(VERIF, 'build')  # VERIF_BUILD: scratch build directory for runs against a scratch copy of the repository (selftest, seeded changes)
 EXT = os.path.join(BUILD, 'ext')
 TOOLCHAIN = '1.98.1-x86_64-unknown-linux-gnu'
 RLIMIT = os.environ.get('VERIF_RLIMIT', '30')
